@@ -12,6 +12,8 @@ float vf_nd_float(void){ union { u32 u; float f; } x; x.u = vf_nd_u32(); return 
 double vf_nd_double(void){ union { u64 u; double f; } x; x.u = vf_nd_u64(); return x.f; }
 ptr_t vf_alloc(u64 n){ ptr_t p = __CPROVER_allocate(n, 0); __CPROVER_assume(p != 0); return p; }
 void vf_out(u64 v){ (void)v; }
+/* CBMC's fma/fmaf models call feraiseexcept(FE_INVALID) for inf*0 / inf-inf; its built-in body asserts "floating-point exception". Floating-point exceptions are not observed by any harness: no-op */
+int feraiseexcept(int e){ (void)e; return 0; }
 u8 ll_undef_u8(void){ return nondet_u8(); } u16 ll_undef_u16(void){ return nondet_u16(); } u32 ll_undef_u32(void){ return nondet_u32(); }
 u64 ll_undef_u64(void){ return nondet_u64(); } u128 ll_undef_u128(void){ return nondet_u128(); }
 ptr_t ll_undef_ptr(void){ return (ptr_t)0; } float ll_undef_float(void){ return nondet_float(); } double ll_undef_double(void){ return nondet_double(); }
